@@ -16,6 +16,7 @@ and spectator sessions are decided by the monitor on traces (their request lists
 the same clauses there).
 -/
 import GgrsModel.Model.Inventory
+import GgrsModel.Proofs.Demo
 import GgrsModel.Model.Sites.P2pSession
 import GgrsModel.Model.Sites.SyncLayer
 import GgrsModel.Model.Sites.SyncTestSession
@@ -269,3 +270,23 @@ theorem C02_poll_core (s s' : P2P) (now : Nat) (received : List (Nat × Msg))
   P2P.poll_core s s' now received h
 
 end Ggrs
+
+namespace Ggrs
+
+/-- **Non-vacuity of the world with a game.** For every game (state type, `step`, initial state) a
+freshly built session satisfies the world invariant, and the world `WStar` the request-list theorems
+quantify over contains the run they are meant for: the user submits an input, the FIRST call (which
+saves frame 0 before anything else) simulates frame 0 with a prediction, the real remote input
+arrives and contradicts it, the user submits again, and the second call rolls back — it loads frame
+0 — with every save of both calls reaching its cell. -/
+theorem C02_world_nonvacuous {G : Type} (step : G → List (Input × InputStatus) → G) (g0 : G) (cellG : Nat → G) :
+    WInv step g0 demoSession ⟨0, fun _ => [], g0, cellG, fun _ => NULL_FRAME⟩ ∧
+    (∃ x', WStar step (demoSession, ⟨0, fun _ => [], g0, cellG, fun _ => NULL_FRAME⟩) (demoW2, x')) ∧
+    demoW2.sync.currentFrame = 2 ∧
+    (getOk demoW1r).2.head? = some (.save 0) ∧
+    (getOk demoW2r).2.any (fun r => match r with | .load 0 => true | _ => false) = true :=
+  ⟨WInv_init step g0 demoSession (fun _ => []) cellG 2 rfl rfl rfl rfl rfl, demo_world_run step _, demo_frameW2,
+    demo_reqsW.1, demo_reqsW.2⟩
+
+end Ggrs
+
